@@ -38,8 +38,10 @@ Property theorems only (proofs are in `Lemmas/QueryBuiltins.lean`, `Lemmas/Query
    read. `queries_only_read_heap`: from every reachable state of the heap model, every sequence of
    read API calls and client mutations of held objects leaves `observe` (everything reads can
    return, by value) unchanged — the reads hand out fresh deep copies, the store dict is not
-   touched, and no held object is reachable from the store (C01's separation invariant). A run
-   that raises midway is a shorter sequence. The sqlite and peewee backends build fresh `Event`
+   touched, and no held object is reachable from the store (C01's separation invariant:
+   `Heap.mutate_observe`, the lemma behind `C01.store_owns_copy` / `store_owns_copy_step`). A run
+   that raises midway is a shorter sequence. `reads_hand_out_fresh_copies`: the objects the reads
+   return are allocated by the call, client-held and not reachable from the store. The sqlite and peewee backends build fresh `Event`
    objects from table rows on every read (value models: `Sqlite.getEvents` / `Peewee.getEvents`
    return values computed from the rows), so there is no shared object to mutate and nothing to
    prove at the object level.
@@ -309,6 +311,24 @@ open Heap in
 theorem read_api_only_reads {s : State} (h : Reachable s) (a : ReadApi) :
     observe (api s a.toApi).1 = observe s ∧ Sep (api s a.toApi).1 ∧ Reachable (api s a.toApi).1 :=
   ⟨read_observe (reachable_sep h) a, read_sep (reachable_sep h) a, Reachable.step (.api a.toApi) h⟩
+
+open Heap in
+/-- what the reads hand out are fresh copies: every event object `get_events` returns was allocated
+    by that call (`s.next ≤ r`: it did not exist before), is held by the client afterwards (so the
+    query's transforms may mutate it: the mutations of `queries_only_read_heap` include these), and
+    is not reachable from the store; likewise the object `get_event` returns -/
+theorem reads_hand_out_fresh_copies {s : State} (h : Reachable s) :
+    (∀ b limit st en rs, (api s (.getEvents b limit st en)).2 = .refs rs → ∀ r ∈ rs,
+      s.next ≤ r ∧ (api s (.getEvents b limit st en)).1.client r = true ∧
+      ¬ storeReach (api s (.getEvents b limit st en)).1 r) ∧
+    (∀ b eid r, (api s (.getEvent b eid)).2 = .optRef (some r) →
+      s.next ≤ r ∧ (api s (.getEvent b eid)).1.client r = true ∧
+      ¬ storeReach (api s (.getEvent b eid)).1 r) := by
+  refine ⟨fun b limit st en rs hr r hm => ?_, fun b eid r hr => ?_⟩
+  · obtain ⟨h1, h2⟩ := getEvents_fresh s b limit st en rs hr r hm
+    exact ⟨h1, h2, held_not_storeReach (getEvents_sep (reachable_sep h) b limit st en) h2⟩
+  · obtain ⟨h1, h2⟩ := getEvent_fresh s b eid r hr
+    exact ⟨h1, h2, held_not_storeReach (getEvent_sep (reachable_sep h) b eid) h2⟩
 
 open Heap in
 /-- queries only read (heap level): from every reachable state, every sequence of read API calls
